@@ -138,8 +138,13 @@ def _weave_states_in_region(
                     if_state = _weave_states_in_region(op.true_region, state.copy(), rewriter)
                     else_state = _weave_states_in_region(op.false_region, state.copy(), rewriter)
 
+                    # states that got invalidated in one of the branches are unknown after the if:
+                    invalidated = [k for k in state if k not in if_state or k not in else_state]
+
                     # calculate the delta:
                     delta = calc_if_state_delta(state, if_state, else_state)
+                    for k in invalidated:
+                        del state[k]
                     # no delta = nothing to do
                     if not delta:
                         continue
@@ -183,6 +188,13 @@ def _weave_states_in_region(
                     # go through the for loop body find all accelerators that are touched
                     # the order of this tuple is important
                     updated_accelerators = tuple(sorted(find_all_acc_names_in_region(op.body)))
+
+                    # accelerators that are not set up inside the loop only keep their
+                    # state if nothing inside the loop can modify it
+                    if has_accfg_effects(op):
+                        for acc_name in tuple(state):
+                            if acc_name not in updated_accelerators:
+                                del state[acc_name]
 
                     # check which states got new uses:
                     # no state change in loop => nothing to do
